@@ -129,7 +129,7 @@ func (c *vfcClient) req(proc uint32, args []byte, meta M, roles map[string][]str
 	line := M{"ev": "req", "n": c.n, "proc": vfNFSProcNames[proc], "st": rep.StatusName(), "ok": rep.OK()}
 	// defaults so that every line has every field with a fixed type
 	for k, v := range map[string]interface{}{"h": []string{}, "name": "", "ncls": "none", "h2": []string{}, "name2": "", "ncls2": "none",
-		"how": "", "verf": "", "hasmode": false, "mode": 0, "hassize": false, "size": 0, "hasuid": false, "uid": 0, "hasgid": false, "gid": 0,
+		"how": "", "verf": "", "hasmode": false, "mode": 0, "modehi": false, "hassize": false, "size": 0, "hasuid": false, "uid": 0, "hasgid": false, "gid": 0,
 		"off": 0, "offc": "small", "cnt": 0, "cntbig": false, "stable": 0, "data": []int{}, "euid": 0, "egid": 0, "tgt": "", "tgtc": []string{}, "tgtok": true, "mask": 0, "hknown": true,
 		"rocheck": false, "faulty": false, "mangle": "ok", "acc_mod": false, "acc_ext": false, "acc_del": false} {
 		line[k] = v
@@ -321,7 +321,8 @@ func (c *vfcClient) access(h uint64, mask uint32) *vfNFSReply {
 
 func (c *vfcClient) sattrMeta(m M, s vfSattr) {
 	if s.Mode != nil {
-		m["hasmode"], m["mode"] = true, int(*s.Mode)
+		// TLC integers are 32-bit: the low 16 bits and a flag for anything above
+		m["hasmode"], m["mode"], m["modehi"] = true, int(*s.Mode&0xFFFF), *s.Mode>>16 != 0
 	}
 	if s.Size != nil {
 		v, _ := vfcCap(*s.Size)
@@ -502,6 +503,16 @@ func vfcNewClientOn(t testing.TB, tr *vfTrace, cfg vfcCfg, hist int, seed int64,
 	return c
 }
 
+// kindAt returns the kind of the backend object at p ("" when missing).
+func (c *vfcClient) kindAt(p []string) string {
+	for _, n := range c.fs.Snapshot(0) {
+		if strings.Join(n.P, "/") == strings.Join(p, "/") {
+			return n.K
+		}
+	}
+	return ""
+}
+
 func (c *vfcClient) pick(r *rand.Rand) uint64 { return c.hs[r.Intn(len(c.hs))] }
 
 // pickKind prefers a handle whose backend object currently has the given kind ("D","F","L").
@@ -545,7 +556,7 @@ func vfcName(r *rand.Rand) string {
 func vfcSattr(r *rand.Rand) vfSattr {
 	s := vfSattr{}
 	if r.Intn(2) == 0 {
-		modes := []uint32{0644, 0600, 0755, 0700, 0, 0444, 0777, 04755}
+		modes := []uint32{0644, 0600, 0755, 0700, 0, 0444, 0777, 04755, 0644, 0755, 0x80000644, 0x10755}
 		s.Mode = u32p(modes[r.Intn(len(modes))])
 	}
 	return s
@@ -584,7 +595,12 @@ func (c *vfcClient) namespaceStep(r *rand.Rand) {
 	name := vfcName(r)
 	switch x := r.Intn(100); {
 	case x < 16:
-		c.create(d, name, uint32(r.Intn(3)), vfcSattr(r), fmt.Sprintf("v%d", r.Intn(3)))
+		sa := vfcSattr(r)
+		if c.kindAt(vfcJoin(c.hp[d], name)) == "F" && r.Intn(2) == 0 {
+			// CREATE of an existing file with an explicit size (any mode)
+			sa.Size = u64p(uint64([]int{0, 1, 5, 20}[r.Intn(4)]))
+		}
+		c.create(d, name, uint32(r.Intn(3)), sa, fmt.Sprintf("v%d", r.Intn(3)))
 	case x < 28:
 		c.mkdir(d, name, vfcSattr(r))
 	case x < 38:
@@ -626,7 +642,12 @@ func (c *vfcClient) dataStep(r *rand.Rand) {
 	cnts := []int{0, 1, T - 1, T, T + 1, 2 * T, 3}
 	switch x := r.Intn(100); {
 	case x < 6:
-		c.create(c.pickKind(r, "D"), vfcNames[r.Intn(3)], 0, vfSattr{Mode: u32p(0644)}, "")
+		sa := vfSattr{Mode: u32p(0644)}
+		d, nm := c.pickKind(r, "D"), vfcNames[r.Intn(3)]
+		if c.kindAt(vfcJoin(c.hp[d], nm)) == "F" && r.Intn(3) > 0 {
+			sa.Size = u64p(uint64([]int{0, 1, 5, 20, 40, 70}[r.Intn(6)]))
+		}
+		c.create(d, nm, uint32(r.Intn(2)), sa, "")
 	case x < 40:
 		n := cnts[r.Intn(len(cnts))]
 		if n < 0 {
@@ -726,6 +747,11 @@ func TestVF_Core(t *testing.T) {
 		}
 		c.flush()
 		c.env.Close()
+	}
+	if profile == "ns" {
+		nd := vfcDirected(t, tr, nh, seed)
+		nh += nd
+		nontrivial += nd
 	}
 	vfWriteJSON(t, "core_"+profile+".summary.json", M{"histories": nh, "steps": steps, "nontrivial": nontrivial, "lines": tr.n, "samples": samples, "profile": profile})
 	_ = bytes.MinRead
